@@ -48,6 +48,9 @@ def gen_case(rng):
         terms[()] = rng.choice([-3, 2, 0.5])
     if kind == "dict" and labels and rng.random() < 0.2:
         terms[(labels[0], labels[0])] = rng.choice([-1, 2])          # raw dict with a repeated label
+    if kind == "dict" and len(labels) >= 2 and not quad and rng.random() < 0.2:
+        # a long key that denotes a short monomial: x*x*y = x*y (boolean), z*z*w = w (spin)
+        terms[(labels[0], labels[0], labels[1])] = rng.choice([-2, 1, 3])
     zero_label = None
     if kind == "dict" and rng.random() < 0.2:
         # a plain dict may hold zero coefficients: the label is mentioned, so it is one of the model's variables
@@ -55,6 +58,9 @@ def gen_case(rng):
         labels = labels + [zero_label]
         terms[(zero_label,)] = 0
     stale = kind != "dict" and rng.random() < 0.25      # model objects: bookkeeping left stale by a cancelled term
+    # a PCBO / PCSO that carries a recorded constraint, handed to the FUNCTIONS: they minimise the model as it is, over every
+    # assignment the caller's `valid` accepts (none given: all) - the recorded constraints are the methods' business
+    constrained = kind in ("PCBO", "PCSO") and (not via_method) and labels and rng.random() < 0.6
     vk = rng.choice(["true", "true", "true", "false", "label", "atmost", "parity"])
     if stale:
         vk = "true"
@@ -69,7 +75,7 @@ def gen_case(rng):
     if via_method and vk not in ("true",):
         vk, varg = "true", []          # the methods use the model's own is_solution_valid
     return {"spin": spin, "kind": kind, "fn": fn, "labels": labels, "terms": terms, "valid_kind": vk, "valid_arg": varg,
-            "all": rng.random() < 0.5, "stale": stale}
+            "all": rng.random() < 0.5, "stale": stale, "constrained": bool(constrained), "omit_valid": rng.random() < 0.5}
 
 
 def exhaustive_cases(polys):
@@ -109,6 +115,10 @@ def run_case(case, cid):
             return l if isinstance(l, int) and not isinstance(l, bool) else -7
         return names.get((type(l).__name__, l), "?%r" % (l,))
     model = classes[case["kind"]](case["terms"])
+    if case.get("constrained"):
+        with warnings.catch_warnings():
+            warnings.simplefilter("ignore")
+            model.add_constraint_eq_zero({(labels[0],): 1}, lam=0.5)       # a weak penalty: the unconstrained minimum may violate it
     if case.get("stale"):
         # a term over one more label comes and goes (the caches keep the label), and a key arrives unsorted
         extra = 7 if matrix else "__stale"
@@ -138,6 +148,8 @@ def run_case(case, cid):
         with warnings.catch_warnings():
             warnings.simplefilter("ignore")
             if case["fn"]:
+                if vk == "true" and case.get("omit_valid"):
+                    return getattr(utils, case["fn"])(model, case["all"])
                 return getattr(utils, case["fn"])(model, case["all"], valid)
             return None, model.solve_bruteforce(case["all"])
     try:
